@@ -660,6 +660,10 @@ func (c *VirtualTable) Update(ctx context.Context, key interface{}, values map[i
 		colName := c.ColumnNameByIndex[i]
 		new.ColumnValues[colName] = ToColumnValue(v)
 	}
+	// an UPDATE does not decide whether the row exists: keep the time of
+	// the INSERT that did, or the update would count as a newer INSERT
+	// and beat a concurrent DELETE
+	new.DeleteUpdateOffset = durationpb.New(ot.Add(old.DeleteUpdateOffset.AsDuration()).Sub(t))
 	merged := MergeRows(key, ot, old, t, &new, t)
 	err = c.Tree.Root.Set(ctx, t, NewKey(key), merged)
 	if err != nil {
